@@ -67,7 +67,7 @@ m = {
  ],
  'checks': checks,
  'not_applicable': [{'property_id': k, 'reason': v} for k, v in NA.items()],
- 'notes': 'Technique family: static analysis only. Every check extracts facts from /repo\'s current working tree (content-hash keyed cache under /verif/.cache) and runs rule engines; nothing from /repo is executed. thorough additionally analyses tests/benches (--all-targets) for the who-may-X rules and runs the witness doc-tests.',
+ 'notes': 'Technique family: static analysis only. Every check extracts facts from /repo\'s current working tree (content-hash keyed cache under /verif/.cache) and runs rule engines; nothing from /repo is executed. thorough = quick plus: positive controls (every must-fire mutant / must-stay-silent refactor of selftest/cases.py that targets the property is applied to a scratch copy of the tree under analysis and analysed; a control that does not behave as expected fails the check), for C12 the clippy cross-reference of the panic-site inventory, for C13 the nightly doc-test witnesses of /verif/witness.',
 }
 json.dump(m, open(os.path.join(V, 'MANIFEST.json'), 'w'), indent=1)
 print('wrote MANIFEST.json with %d checks, %d not_applicable' % (len(checks), len(NA)))
